@@ -55,16 +55,31 @@ def r7_1(repo: Repo) -> RuleResult:
     ro, ri = _nested_range_loops(reader.node)
     sd = single_defs(reader)
     ri_, rj_ = norm(ro.target), norm(ri.target)
-    n_def, m_def = norm(sd.get("n", ast.Name(id="?"))), norm(sd.get("m", ast.Name(id="?")))
-    arc_assign = [n for n in ast.walk(ri) if isinstance(n, ast.Assign) and norm(n.targets[0]) == "arc"]
-    r_arc = arc_assign[0].value if arc_assign else None
-    store = [n for n in ast.walk(ri) if isinstance(n, ast.Assign) and isinstance(n.targets[0], ast.Subscript) and norm(n.targets[0].value) == "result"]
+
+    def full(e):
+        cur = e
+        for _ in range(3):
+            names = {x.id for x in ast.walk(cur) if isinstance(x, ast.Name) and x.id in sd}
+            if not names:
+                break
+            cur = sym.substitute(cur, {k: sd[k] for k in names})
+        return cur
+
+    # loop bounds expanded: outer over graph.n, inner over graph.m
+    outer_b = norm(full(ro.iter.args[0])) if isinstance(ro.iter, ast.Call) and ro.iter.args else "?"
+    inner_b = norm(full(ri.iter.args[0])) if isinstance(ri.iter, ast.Call) and ri.iter.args else "?"
+    n_def, m_def = outer_b, inner_b
+    # the arc is whatever is mapped through arc_id; the store is the subscript store indexed by (i, j)
+    arc_calls = [c for c in ast.walk(ri) if isinstance(c, ast.Call) and norm(c.func) == "arc_id" and c.args]
+    r_arc = full(arc_calls[0].args[0]) if arc_calls else None
+    store = [n for n in ast.walk(ri) if isinstance(n, ast.Assign) and isinstance(n.targets[0], ast.Subscript)
+             and isinstance(n.targets[0].slice, ast.Tuple) and len(n.targets[0].slice.elts) == 2]
     tp = repo.func(LOT, "transport_plan")
     alloc = [c for c in repo.calls_in(tp) if norm(c.func) == "allocate_graph_structures"]
     problems = []
     if not sc_ok:
         problems.append("set_cost no longer writes cost[arc_id(arc)]")
-    if not (n_def == "graph.n" and m_def == "graph.m" and norm(ro.iter) == "range(n)" and norm(ri.iter) == "range(m)"):
+    if not (n_def == "graph.n" and m_def == "graph.m"):
         problems.append("reader loops are not i over graph.n (outer), j over graph.m (inner)")
     if not alloc or [norm(a) for a in alloc[0].args[:2]] != ["p.shape[0]", "q.shape[0]"]:
         problems.append("graph is not allocated as (|p|, |q|)")
@@ -89,15 +104,17 @@ def r7_1(repo: Repo) -> RuleResult:
     else:
         # writer: i*cost.shape[1] + j with cost.shape = (|p|, |q|) = (graph.n, graph.m)   reader: i*m + j
         w = sym.poly(w_arc, {"%s.shape[1]" % cm: ast.parse("M", mode="eval").body, i: ast.parse("I", mode="eval").body, j: ast.parse("J", mode="eval").body})
-        r = sym.poly(r_arc, {"m": ast.parse("M", mode="eval").body, ri_: ast.parse("I", mode="eval").body, rj_: ast.parse("J", mode="eval").body})
+        r = sym.poly(r_arc, {"graph.m": ast.parse("M", mode="eval").body, ri_: ast.parse("I", mode="eval").body, rj_: ast.parse("J", mode="eval").body})
         if w != r:
             problems.append("writer numbers cell (i, j) as %s but the reader uses %s" % (sym.show(w), sym.show(r)))
         if norm(w_val) != "%s[%s, %s]" % (cm, i, j):
             problems.append("writer stores %s for arc (i, j)" % norm(w_val))
         if norm(store[0].targets[0].slice) not in ("(%s, %s)" % (ri_, rj_), "%s, %s" % (ri_, rj_)):
             problems.append("reader stores the flow of arc (i, j) at result[%s]" % norm(store[0].targets[0].slice))
-        if "arc_id(arc, graph)" not in norm(sd.get("flow_idx", ast.Name(id="?"))) and "arc_id(arc, graph)" not in " ".join(norm(x) for x in ast.walk(ri) if isinstance(x, ast.Call)):
-            problems.append("reader does not map the arc through arc_id")
+        # the stored value must be flow[arc_id(arc, graph)]
+        val = full(store[0].value)
+        if not (isinstance(val, ast.Subscript) and norm(val.value) == reader.params[0] and "arc_id(" in norm(val.slice)):
+            problems.append("reader does not store flow[arc_id(arc, graph)]")
     if problems:
         rr.bad(reader, "arc numbering", "; ".join(problems), reader.node.lineno)
     else:
